@@ -100,26 +100,26 @@ func TestVerifC19RealOS(t *testing.T) {
 		unavailable(err.Error())
 		return
 	}
-	okDown, seenDown := waitFor(downC, LinkDown, 3*time.Second)
+	okDown, seenDown := waitFor(downC, LinkDown, 6*time.Second)
 	obs["down_subscriber"] = fmt.Sprint(seenDown)
 	if !okDown {
-		viol = append(viol, fmt.Sprintf("the link went down but the LinkDown subscriber of that interface saw %v within 3 s", seenDown))
+		viol = append(viol, fmt.Sprintf("the link went down but the LinkDown subscriber of that interface saw %v within 6 s", seenDown))
 	}
 	for _, v := range seenDown {
 		if v&LinkDown == 0 {
 			viol = append(viol, fmt.Sprintf("the LinkDown subscriber received %v, which it did not ask for", v))
 		}
 	}
-	okAny, seenAny := waitFor(anyC, LinkDown, 3*time.Second)
+	okAny, seenAny := waitFor(anyC, LinkDown, 6*time.Second)
 	obs["any_subscriber"] = fmt.Sprint(seenAny)
 	if !okAny {
 		viol = append(viol, fmt.Sprintf("the LinkAny subscriber saw %v but no LinkDown", seenAny))
 	}
 	_ = c19Sh("link", "set", "up", na)
-	okUp, seenUp := waitFor(anyC, LinkUp, 4*time.Second)
+	okUp, seenUp := waitFor(anyC, LinkUp, 8*time.Second)
 	obs["after_up"] = fmt.Sprint(seenUp)
 	if !okUp {
-		viol = append(viol, fmt.Sprintf("the link came up again but the LinkAny subscriber saw only %v within 4 s", seenUp))
+		viol = append(viol, fmt.Sprintf("the link came up again but the LinkAny subscriber saw only %v within 8 s", seenUp))
 	}
 	select {
 	case v, ok := <-otherC:
